@@ -103,13 +103,44 @@ type vfC11PrincUpd struct {
 	Email    string
 }
 
+// String renders only the dimensions that matter for the operation kind, so that two cases that differ
+// only in draws the kind never looks at count as the same case in the evidence.
 func (s vfC11Scenario) String() string {
 	var pre []string
 	for _, p := range s.Pre {
 		pre = append(pre, p.String())
 	}
-	return fmt.Sprintf("kind=%s defaultColl=%v allowConflicts=%v ccvOff=%v as=%q aliceEmail=%v pre=[%s] new=%s pushParent=%d ext=%s via=%s pupd=%+v purge=%v oneTime=%v",
-		s.Kind, s.DefaultColl, s.AllowConflicts, s.CCVOff, s.AsUser, s.AliceEmail, strings.Join(pre, " "), s.New, s.PushParent, s.External, s.ImportVia, s.PUpd, s.Purge, s.OneTime)
+	out := fmt.Sprintf("kind=%s defaultColl=%v", s.Kind, s.DefaultColl)
+	isDoc := false
+	for _, k := range vfC11DocKinds {
+		if s.Kind == k {
+			isDoc = true
+		}
+	}
+	if isDoc || strings.HasPrefix(s.Kind, "reject:") {
+		out += fmt.Sprintf(" allowConflicts=%v ccvOff=%v as=%q pre=[%s] new=%s", s.AllowConflicts, s.CCVOff, s.AsUser, strings.Join(pre, " "), s.New)
+		if s.Kind == "push" {
+			out += fmt.Sprintf(" pushParent=%d", s.PushParent)
+		}
+		if s.Kind == "import" {
+			out += fmt.Sprintf(" ext=%s via=%s", s.External, s.ImportVia)
+		}
+	}
+	if !isDoc {
+		out += fmt.Sprintf(" aliceEmail=%v", s.AliceEmail)
+		switch s.Kind {
+		case "user-create", "user-update", "role-create", "role-update", "user-register":
+			out += fmt.Sprintf(" pupd=%+v", s.PUpd)
+		case "role-delete":
+			out += fmt.Sprintf(" purge=%v", s.Purge)
+		case "session-create", "session-delete":
+			out += fmt.Sprintf(" oneTime=%v", s.OneTime)
+		}
+		if strings.HasPrefix(s.Kind, "reject:") {
+			out += fmt.Sprintf(" pupd=%+v purge=%v oneTime=%v", s.PUpd, s.Purge, s.OneTime)
+		}
+	}
+	return out
 }
 
 var vfC11DocKinds = []string{"create", "update", "delete", "attach-new", "attach-drop", "push", "import"}
@@ -229,6 +260,7 @@ type vfC11World struct {
 	sessionID string
 	excluded  []string // known-finding signatures met while checking
 	skipLeaves bool    // leave out the "every leaf readable" clause (known finding)
+	anyNewRev  bool    // timeout class: the new revision's id is not known in advance
 }
 
 func (wd *vfC11World) close() {
@@ -680,7 +712,19 @@ func (wd *vfC11World) checkDoc(id, rev string, st vfC11DocState, mustBeCurrent b
 		return fmt.Sprintf("document %s cannot be read back: %v", id, err)
 	}
 	if rev == "" {
-		return "operation returned no revision id"
+		if !wd.anyNewRev {
+			return "operation returned no revision id"
+		}
+		// outcome-unknown write: accept whatever new child of the previous current revision is there
+		// (the revision id of a retried write is not always the id of the un-retried one)
+		prev := ""
+		if id == "d1" {
+			prev = wd.curRev
+		}
+		rev = doc.GetRevTreeID()
+		if rev == prev || doc.History[rev] == nil || doc.History[rev].Parent != prev {
+			return fmt.Sprintf("current revision of %s is %s, which is not a new child of %q", id, rev, prev)
+		}
 	}
 	info, ok := doc.History[rev]
 	if !ok {
@@ -1215,8 +1259,11 @@ func vfC11Execute(t testing.TB, sc vfC11Scenario, op vfC11Op, faults map[int]vs.
 			break
 		}
 		res := baseRes
-		if sc.Kind == "session-create" {
+		switch sc.Kind {
+		case "session-create":
 			res = vfC11NewSessionID(pre, post)
+		case "create", "update", "delete", "attach-new", "attach-drop":
+			res, wd.anyNewRev = "", true
 		}
 		if msg := op.check(wd, res, false); msg != "" && !gate(relaxState) {
 			return run, fmt.Sprintf("after a timeout the state is neither the old one nor the complete new one: differences to the old state:\n%s\nnew state incomplete: %s [%s]", strings.Join(diff, "\n"), msg, desc), nil
